@@ -3,7 +3,7 @@ CONSTANTS
   BackwardBound = "PrefixInclusive"
   Keys <- K8
   PrefixSet <- P4
-  StartSet <- ST4
+  StartSet <- ST7
   DepthSet <- D012
   CutSet <- BB
   Backends <- MemLevel
